@@ -109,6 +109,13 @@ class C12(InvProp):
                     extra.append({"path": "nodes/r%02d.yml" % k, "content": {"classes": ["rdefs", "%s.entry" % g]}})
                 c["files"].extend(extra)
                 c["repeat"] = 1
+            if i % 6 == 5:
+                from .. import geninv2 as GI2
+                ca = GI.gen_inventory(r, n_classes=r.range(2, 6), shape=r.choice(["tree", "dag"]), nested=True, relative=70, n_nodes=r.range(3, 9))
+                if GI2.add_aliases(r, ca):
+                    ca["repeat"] = 2
+                    ca["repeat_seed"] = r.below(1 << 30)
+                    yield ca
             if i % 2 == 0:
                 # cross-node application negations
                 nodes = [f for f in c["files"] if f["path"].startswith("nodes/")]
